@@ -47,12 +47,35 @@ pub mod sys {
             pub fn thread_unblock(&self) -> crate::Result<()> {
                 let wd = w();
                 wd.sig_blocked &= !self.bits;
-                // a pending signal that becomes unblocked is delivered by default disposition
-                let fired = wd.sig_pending & !wd.sig_blocked;
-                wd.sig_default_fired |= fired;
-                wd.sig_pending &= !fired;
+                deliver_unblocked();
                 Ok(())
             }
+            /// pthread_sigmask(SIG_SETMASK): the thread's mask becomes exactly this set
+            pub fn thread_set_mask(&self) -> crate::Result<()> { w().sig_blocked = self.bits; deliver_unblocked(); Ok(()) }
+            /// pthread_sigmask(how, self) returning the previous mask
+            pub fn thread_swap_mask(&self, how: SigmaskHow) -> crate::Result<SigSet> {
+                let wd = w();
+                let old = SigSet { bits: wd.sig_blocked };
+                match how {
+                    SigmaskHow::SIG_BLOCK => wd.sig_blocked |= self.bits,
+                    SigmaskHow::SIG_UNBLOCK => wd.sig_blocked &= !self.bits,
+                    SigmaskHow::SIG_SETMASK => wd.sig_blocked = self.bits,
+                }
+                deliver_unblocked();
+                Ok(old)
+            }
+            /// the calling thread's current mask
+            pub fn thread_get_mask() -> crate::Result<SigSet> { Ok(SigSet { bits: w().sig_blocked }) }
+        }
+        #[allow(non_camel_case_types)]
+        #[derive(Clone, Copy, Debug, PartialEq, Eq)]
+        pub enum SigmaskHow { SIG_BLOCK, SIG_UNBLOCK, SIG_SETMASK }
+        /// a pending signal that becomes unblocked is delivered by its default disposition
+        fn deliver_unblocked() {
+            let wd = w();
+            let fired = wd.sig_pending & !wd.sig_blocked;
+            wd.sig_default_fired |= fired;
+            wd.sig_pending &= !fired;
         }
     }
     pub mod signalfd {
